@@ -188,6 +188,9 @@ func TestC04(t *testing.T) {
 					c.Elems = append(c.Elems, genElem(rt))
 				}
 				c.Chunks = genChunks(rt, elemsSize(c.Elems), carrier == "ws")
+				if carrier != "ws" {
+					c.EOFWithData = rapid.IntRange(0, 3).Draw(rt, "eof_with_data") == 0
+				}
 				pbt.Check(rt, "C04", "roundtrip", c, nonTrivial(c), []string{"carrier:" + carrier}, func() error { return Run(c) })
 			})
 		})
@@ -197,7 +200,7 @@ func TestC04(t *testing.T) {
 func TestC04Limits(t *testing.T) {
 	rapid.Check(t, func(rt *rapid.T) {
 		c := LimitCase{
-			What:    rapid.SampledFrom([]string{"hdrcount", "key", "value", "url", "method", "body", "contentlength", "msg"}).Draw(rt, "what"),
+			What:    rapid.SampledFrom([]string{"hdrcount", "hdrcount-repeat", "hdrcount-case", "key", "value", "url", "method", "body", "contentlength", "msg"}).Draw(rt, "what"),
 			Carrier: rapid.SampledFrom([]string{"direct", "http"}).Draw(rt, "carrier"),
 			AsReq:   rapid.Bool().Draw(rt, "asreq"),
 		}
@@ -211,7 +214,7 @@ func TestC04Limits(t *testing.T) {
 		default:
 			c.Over = rapid.IntRange(65, 300000).Draw(rt, "over_big")
 		}
-		if c.What == "hdrcount" && c.Over > 2000 {
+		if strings.HasPrefix(c.What, "hdrcount") && c.Over > 2000 {
 			c.Over = 2000
 		}
 		c.Chunks = genChunks(rt, 0, false)
